@@ -605,7 +605,13 @@ func c09Nats(c *core.Ctx, ne *natsenv.Env, cfg c09Cfg) {
 	svc := res.NewService(cfg.Name)
 	svc.SetLogger(&cntLogger{})
 	c09Configure(svc, cfg)
-	svc.SetOnReconnect(func(*res.Service) { reconnected <- struct{}{} })
+	// the callback is optional: every other configuration runs without one, and the reset on
+	// reconnect is sent all the same
+	withCallback := len(cfg.Kinds)%2 == 0
+	desc["on_reconnect_callback"] = withCallback
+	if withCallback {
+		svc.SetOnReconnect(func(*res.Service) { reconnected <- struct{}{} })
+	}
 	served := make(chan struct{})
 	svc.SetOnServe(func(*res.Service) { close(served) })
 	ret := make(chan error, 1)
@@ -697,10 +703,14 @@ func c09Nats(c *core.Ctx, ne *natsenv.Env, cfg c09Cfg) {
 			c.Inconclusive("service connection did not reconnect")
 			return
 		}
-		select {
-		case <-reconnected:
-		case <-time.After(2 * time.Second):
-			c.Violation("C09/no-reconnect-callback:"+sig, "the service's connection reconnected but the service took no notice (no OnReconnect callback)", desc)
+		if withCallback {
+			select {
+			case <-reconnected:
+			case <-time.After(2 * time.Second):
+				c.Violation("C09/no-reconnect-callback:"+sig, "the service's connection reconnected but the service took no notice (no OnReconnect callback)", desc)
+			}
+		} else {
+			c.Obs("reconnects_without_callback", 1)
 		}
 		nc.Flush()
 		c.Obs("reconnects", 1)
